@@ -26,6 +26,7 @@ SIMPLE = {
     'things:ident': ('x', []),
     'things:annotated_fn': ('x', ['y', 'child']),
     'things:mutdef': ('c', ['a', 'b']),
+    'things:mutdef1': ('c', ['a', 'other']),
 }
 
 _FACTORIES = {'list': list, 'int': int, 'make_list': things.make_list, None: None}
@@ -129,6 +130,20 @@ def dag(draw, *, max_nodes=12, leaf_profile='plain', kinds=None, p_alias=0.55,
       if tags and draw(st.floats(0, 1)) < 0.5:
         key = draw(st.sampled_from(['a', 'b', 'k'] + list(range(len(pos)))))
         node['tags'] = [[key, draw(st.sampled_from(['TagA', 'TagB', 'TagC', 'TagX']))]]
+    elif kind == 'Bpo':
+      pos = []
+      for d in ['d_p0', 'd_p1'][: draw(st.integers(0, 2))]:
+        pos.append({'leaf': d} if draw(st.booleans()) else ref())
+      kw = {'a': ref()} if draw(st.booleans()) else {}
+      node = {'k': 'B', 'bt': draw(st.sampled_from(list(bts))), 'fn': {'kind': 'sym', 'name': 'things:po2'},
+              'pos': pos, 'kw': kw, 'edits': []}
+    elif kind == 'Bdc':
+      kw = {}
+      for pn in ('u', 'v', 'w'):
+        if draw(st.floats(0, 1)) < 0.4:
+          kw[pn] = ref()
+      node = {'k': 'B', 'bt': draw(st.sampled_from(list(bts))), 'fn': {'kind': 'sym', 'name': 'things:DCPlain'},
+              'pos': [], 'kw': kw, 'edits': []}
     elif kind == 'Bempty':
       # a Buildable with tags but no argument values
       node = {'k': 'B', 'bt': draw(st.sampled_from(list(bts))), 'fn': {'kind': 'sym', 'name': 'things:f2'},
@@ -148,10 +163,25 @@ def dag(draw, *, max_nodes=12, leaf_profile='plain', kinds=None, p_alias=0.55,
       if tags and draw(st.booleans()):
         node['tags'] = [[draw(st.sampled_from(['a', 'k', 'z0', 0, 1, 2, 3])),
                          draw(st.sampled_from(['TagA', 'TagB', 'TagC', 'TagX']))]]
+    elif kind == 'Bmut1':
+      # explicit value equal to the (single) mutable default; often aliased by a sibling
+      prev = [j for j, nd in enumerate(nodes) if nd['k'] == 'list' and nd.get('_eqdef')]
+      if prev and draw(st.booleans()):
+        lref = draw(st.sampled_from(prev))
+      else:
+        nodes.append({'k': 'list', 'items': [{'leaf': 'single-default'}], '_eqdef': True})
+        lref = len(nodes) - 1
+      kw = {'a': lref}
+      if draw(st.booleans()):
+        kw['other'] = lref if draw(st.booleans()) else ref()
+      node = {'k': 'B', 'bt': draw(st.sampled_from(list(bts))), 'fn': {'kind': 'sym', 'name': 'things:mutdef1'},
+              'pos': [], 'kw': kw, 'edits': []}
     elif kind == 'Bmut':
       kw = {'a': {'leaf': {'$sym': 'things:_MUTABLE_DEFAULT'}}}
       if draw(st.booleans()):
         kw['b'] = ref()
+      elif draw(st.booleans()):
+        kw['b'] = {'leaf': {'$sym': 'things:_MUTABLE_DEFAULT'}}
       node = {'k': 'B', 'bt': draw(st.sampled_from(list(bts))), 'fn': {'kind': 'sym', 'name': 'things:mutdef'},
               'pos': [], 'kw': kw, 'edits': []}
     elif kind in ('list', 'tuple'):
